@@ -10,6 +10,10 @@ def claim(pid, technique, text, note, ref):
     CLAIMS[pid] = dict(technique=technique, text=text, note=note, ref=ref)
 
 exec((VERIF / "tools" / "claims.py").read_text())
+# per-property overrides maintained next to the notes (later wording of what is proved / assumed)
+for f in sorted((VERIF / "notes" / "claims").glob("C*.json")):
+    o = json.loads(f.read_text())
+    CLAIMS.setdefault(f.stem, {}).update({k: o[k] for k in ("technique", "text", "note", "ref") if k in o})
 
 ALL = [json.loads(l)["id"] for l in (VERIF / "properties.jsonl").read_text().splitlines() if l.strip()]
 NA = json.loads((VERIF / "tools" / "not_applicable.json").read_text())
